@@ -811,6 +811,7 @@ func checkC03TerminalWriter(p *Prog, r *Report, ru *Rule) {
 					}
 				})
 			}
+			checkWriterKeepsOrder(wr, buf, ru, "the terminal")
 			k := fnName(wr) + ":writes-once"
 			switch {
 			case nil != again:
@@ -821,6 +822,153 @@ func checkC03TerminalWriter(p *Prog, r *Report, ru *Rule) {
 				ru.OK(k, wr.Pos(), "the slice is handed on once, outside any loop")
 			}
 		})
+	}
+}
+
+// checkWriterKeepsOrder: a terminal writer which keeps bytes back (appends or
+// copies the slice it is given into storage which outlives the call) and, on
+// another path, hands the slice straight to the terminal must first write
+// out what it kept back — otherwise the later bytes overtake the earlier.
+// On every path to the direct write the kept-back bytes have been written or
+// found empty.
+func checkWriterKeepsOrder(wr *ssa.Function, buf *ssa.Parameter, ru *Rule, dest string) {
+	type where struct {
+		g *ssa.Global
+		f *types.Var
+	}
+	rootOf := func(v ssa.Value) (where, bool) {
+		for _, x := range valueRoots(v, func(n string) bool { return "builtin.append" == n }) {
+			switch x.Kind {
+			case "global":
+				if g, ok := x.V.(*ssa.Global); ok {
+					return where{g: g}, true
+				}
+			case "field":
+				if nil != x.Field {
+					return where{f: x.Field}, true
+				}
+			}
+		}
+		return where{}, false
+	}
+	fromBuf := func(a ssa.Value) bool {
+		v := stripConv(a, false)
+		for {
+			sl, ok := v.(*ssa.Slice)
+			if !ok {
+				break
+			}
+			v = stripConv(sl.X, false)
+		}
+		return resolveFree(v) == ssa.Value(buf)
+	}
+	var kept []where
+	var direct []ssa.Instruction
+	for _, f := range withAnons(wr) {
+		eachInstr(f, func(j ssa.Instruction) {
+			cc := callCommon(j)
+			if nil == cc {
+				return
+			}
+			args := callArgs(cc)
+			if b, isB := cc.Value.(*ssa.Builtin); isB {
+				if ("append" == b.Name() || "copy" == b.Name()) && 2 == len(args) && fromBuf(args[1]) {
+					if w, ok := rootOf(args[0]); ok {
+						kept = append(kept, w)
+					}
+				}
+				return
+			}
+			if f != wr {
+				return
+			}
+			for _, a := range args {
+				if fromBuf(a) {
+					direct = append(direct, j)
+				}
+			}
+		})
+	}
+	if 0 == len(kept) || 0 == len(direct) {
+		return
+	}
+	isKept := func(v ssa.Value) bool {
+		w, ok := rootOf(v)
+		if !ok {
+			return false
+		}
+		for _, k := range kept {
+			if k == w {
+				return true
+			}
+		}
+		return false
+	}
+	/* Blocks which write the kept-back bytes out, and the edges taken when
+	there are none. */
+	avoid := map[Edge]bool{}
+	flushAt := map[*ssa.BasicBlock]int{}
+	for _, b := range wr.Blocks {
+		for n, j := range b.Instrs {
+			cc := callCommon(j)
+			if nil == cc {
+				continue
+			}
+			if _, isB := cc.Value.(*ssa.Builtin); isB {
+				continue
+			}
+			for _, a := range callArgs(cc) {
+				if _, isSl := a.Type().Underlying().(*types.Slice); isSl && isKept(a) {
+					if _, have := flushAt[b]; !have {
+						flushAt[b] = n
+					}
+				}
+			}
+		}
+		if ifi, ok := b.Instrs[len(b.Instrs)-1].(*ssa.If); ok && 2 == len(b.Succs) {
+			if bo, ok := ifi.Cond.(*ssa.BinOp); ok {
+				x, y := bo.X, bo.Y
+				if _, isC := x.(*ssa.Const); isC {
+					x, y = y, x
+				}
+				c, isC := y.(*ssa.Const)
+				call, isCall := x.(*ssa.Call)
+				if isC && isCall && nil != c.Value && "0" == c.Value.ExactString() && "builtin.len" == calleeName(call.Common()) && isKept(call.Call.Args[0]) {
+					switch bo.Op {
+					case token.EQL, token.LEQ:
+						avoid[Edge{b.Index, b.Succs[0].Index}] = true
+					case token.NEQ, token.GTR, token.LSS:
+						avoid[Edge{b.Index, b.Succs[1].Index}] = true
+					}
+				}
+			}
+		}
+	}
+	for fb := range flushAt {
+		for _, pr := range fb.Preds {
+			avoid[Edge{pr.Index, fb.Index}] = true
+		}
+	}
+	for _, d := range direct {
+		k := fmt.Sprintf("%s:kept-back-bytes-first", fnName(wr))
+		db := d.Block()
+		if n, have := flushAt[db]; have {
+			at := -1
+			for m, j := range db.Instrs {
+				if j == d {
+					at = m
+				}
+			}
+			if n < at {
+				ru.OK(k, posOf(d), "what was kept back is written out just before")
+				continue
+			}
+		}
+		if blockReachableAvoiding(wr, db, avoid) {
+			ru.Bad(k, posOf(d), "the writer in front of %s keeps small writes back in a buffer but hands this slice straight to %s without first writing out what it kept: these bytes reach %s before the earlier ones", dest, calleeName(callCommon(d)), dest)
+		} else {
+			ru.OK(k, posOf(d), "on every path here what was kept back has been written out or is empty")
+		}
 	}
 }
 
